@@ -44,7 +44,7 @@ REQUIRED = {"all": ["move:full_shuffle", "move:swapRes", "move:swapRandChargeRes
                     "move:permute_cluster_charges", "move:get_shuffled_sequence", "move:get_permutant", "chains",
                     "hostile_tapes", "parent_dmax_cached", "parent_dmax_not_cached", "frozen_nonempty", "frozen_only_zero",
                     "frozen_all_charged", "uncharged_parents", "returned_parent_itself", "carried_dmax_checked",
-                    "ancestors_checked", "frozen_as_numpy_array", "frozen_list_with_repeats", "frozen_with_negative_entries", "reduced_alphabet_parents", "long_parents_with_large_frozen_sets", "default_shuffle_mobility_checks"]}
+                    "ancestors_checked", "frozen_as_numpy_array", "frozen_list_with_repeats", "frozen_with_negative_entries", "reduced_alphabet_parents", "long_parents_with_large_frozen_sets", "default_shuffle_mobility_checks", "child_permutants_checked"]}
 NCASE = {"quick": 700, "thorough": 8000}
 DRAW_BUDGET = 20000
 BACKEND_MOVES = ["full_shuffle", "swapRes", "swapRandChargeRes", "permute_block_swap", "permute_cluster_charges"]
@@ -155,6 +155,19 @@ def check_result(rep, S, move, parent, psnap, frozen, child, ctx, fresh_cache):
             else:
                 if not (M.close(vals[0], fk) and M.close(vals[1], fd) and M.close(vals[2], ffcr)):
                     fails.append(("child_values", "%s: child %s answers kappa/delta/FCR %r, a fresh object %r" % (move, child.seq, vals, (fk, fd, ffcr))))
+        if not fails and child.dmax != -1 and len(child.seq) <= 40 and not (set(child.seq) & set("+-0")):
+            # a child that carries a delta-max still finds the arrangement that has it
+            try:
+                pv = child.deltaMax(True)
+                fv = Sequence(child.seq).deltaMax(True)
+                ok_ = (isinstance(pv, tuple) and isinstance(fv, tuple) and M.close(pv[0], fv[0]) and isinstance(pv[1], type(fv[1]))
+                       and (pv[1] is None or Counter(pv[1]) == Counter(child.seq)))
+            except Exception as e:
+                ok_, pv, fv = False, "%s: %s" % (type(e).__name__, e), None
+            rep.cnt("child_permutants_checked")
+            if not ok_:
+                fails.append(("carried_deltamax", "%s: child %s (carried delta-max %r) answers deltaMax(True) with %r, a fresh object with %r" % (
+                    move, child.seq, child.dmax, pv, fv)))
         if child is parent:
             rep.cnt("returned_parent_itself")
             if child.seq != psnap[0]:
